@@ -7,6 +7,7 @@ the snapshot, restored *in place* and is part of the canonical key.
 """
 from __future__ import annotations
 
+import copyreg
 import dataclasses
 import enum
 import io
@@ -150,24 +151,81 @@ class Registry:
 REGISTRY = Registry()
 
 
-class _P(pickle.Pickler):
+# Per-process table of *configuration* objects of the current world (DESIGN.md 2.1): pickled by
+# reference (index), so that identity is stable across snapshots and canon can cache their key.
+CONSTS: list = []
+CONST_IDS: dict = {}
+
+
+def set_consts(objs) -> None:
+    CONSTS[:] = list(objs)
+    CONST_IDS.clear()
+    for i, o in enumerate(CONSTS):
+        CONST_IDS.setdefault(id(o), i)
+
+
+def _const_lookup(i):
+    return CONSTS[i]
+
+
+def _reg_lookup(i):
+    return REGISTRY.objs[i]
+
+
+class _PSlow(pickle.Pickler):
+    """General case: the registry contains builtin containers -> per-object persistent_id callback."""
+
     def persistent_id(self, obj):
         i = REGISTRY.by_id.get(id(obj))
         if i is not None:
             return ("xmc-reg", i)
+        i = CONST_IDS.get(id(obj))
+        if i is not None:
+            return ("xmc-const", i)
         return None
+
+
+def _reduce_special(obj):
+    i = REGISTRY.by_id.get(id(obj))
+    if i is not None:
+        return (_reg_lookup, (i,))
+    i = CONST_IDS.get(id(obj))
+    if i is not None:
+        return (_const_lookup, (i,))
+    return obj.__reduce_ex__(4)
+
+
+class _PFast(pickle.Pickler):
+    """All registry / configuration objects are instances of non-builtin classes: a per-type
+    reducer (C-speed dispatch) replaces the per-object Python callback."""
+
+    def __init__(self, f, protocol):
+        super().__init__(f, protocol=protocol)
+        table = copyreg.dispatch_table.copy()
+        for o in REGISTRY.objs:
+            table[type(o)] = _reduce_special
+        for o in CONSTS:
+            table[type(o)] = _reduce_special
+        self.dispatch_table = table
 
 
 class _U(pickle.Unpickler):
     def persistent_load(self, pid):
         if pid[0] == "xmc-reg":
             return REGISTRY.objs[pid[1]]
+        if pid[0] == "xmc-const":
+            return CONSTS[pid[1]]
         raise pickle.UnpicklingError(f"bad persistent id {pid!r}")
+
+
+def _fast_ok() -> bool:
+    return all(not isinstance(o, (list, dict, set, bytearray, tuple)) for o in REGISTRY.objs) and \
+        all(not isinstance(o, (list, dict, set, bytearray, tuple)) for o in CONSTS)
 
 
 def dumps(obj) -> bytes:
     f = io.BytesIO()
-    _P(f, protocol=4).dump(obj)
+    (_PFast if _fast_ok() else _PSlow)(f, protocol=4).dump(obj)
     return f.getvalue()
 
 
